@@ -73,10 +73,37 @@ def check_events(case, dump):
     return bad, tags
 
 
+def report_stage(out, tier, replay=None):
+    """the property is also observable on the rows of tax_report_us.ods: no taxable transaction may be dropped,
+    duplicated or listed under another type there either.  A handful of multi-asset US runs (fresh interpreter
+    each, as the CLI) judged by the row oracle of the C14 check, which works from the input rows and the ComputedData."""
+    from harness import l5
+    from harness.props import c14
+    if replay is not None:
+        jobs = [replay]
+    else:
+        rng = core.Rng(core.seed(), 303)
+        jobs = []
+        for k in range(24 if tier == "quick" else 400):
+            m = l5.gen_multi(rng, country="us", n_assets=rng.choice([2, 2, 3]), n_max=rng.choice([8, 12]), window=(k % 3 == 0), earn_pct=35)
+            c14.diversify(rng, m)
+            jobs.append({"multi": m, "generator": "tax_report_us"})
+    for job, res in zip(jobs, l5.run_workers(jobs)):
+        if "computed" not in res:
+            continue
+        for text, tags in c14.oracle(job["multi"], res):
+            if tags & {"rows", "missing-sheet", "wrong-sheet", "no-report"}:
+                out.violation("tax_report_us.ods: " + text, job, tags=set(tags) | {"tax-report-rows"})
+                break
+    return len(jobs)
+
+
 def run(tier, build, replay=None):
     out = core.Outcome("C03", tier)
     proofs = core.check_proofs(build, "C03.v")
-    if replay:
+    if replay and "multi" in replay:          # replay of a tax-report job of the report stage
+        data = {"cases": [], "impl": [], "events": []}
+    elif replay:
         core.impl_env_setup()
         data = {"cases": [replay], "impl": [hist.impl_compute(replay)],
                 "events": core.run_model([hist.line(13, hist.encode_hist(replay))])}
@@ -106,6 +133,9 @@ def run(tier, build, replay=None):
             else:
                 mism += 1
                 out.violation(f"model fails ({ev[0]}) where the implementation succeeds", c, tags={"correspondence"}, found_input=False)
+    n_reports = 0
+    if not replay or (isinstance(replay, dict) and "multi" in replay):
+        n_reports = report_stage(out, tier, replay)
     core.proofs_verdict(out, proofs, build, "C03.v")
     out.coverage.update({
         "evaluations": len(data["cases"]),
